@@ -140,7 +140,7 @@ PROPS = {
         "level_note": "The navigation theorem is stated at the level of whole exchanges (NetworkAbs); the refinement from exchanges to byte-level reads is "
                       "C01's phase lemma and is not yet composed with it mechanically. Hypotheses: prompts identify levels uniquely, sibling commands "
                       "distinct, no level named by the empty string (found by the proof).",
-        "assumptions": ["user command lines do not themselves change the device mode (history clause)"],
+        "assumptions": [],
     },
     "C05": {
         "pf": True,
@@ -189,9 +189,11 @@ PROPS = {
                       "model of the read loop and RPC wait hold for every operation list and every log (store invariant by induction, unbounded). "
                       "Tied to driver/netconf by replaying the logged schedule of each real session.",
         "level_note": "Hypotheses carried by the theorems: a message's id must be extractable from the framed bytes (see the known finding: a 1.1 chunk "
-                      "boundary inside the message-id attribute makes the reply unfileable); reply payloads do not contain the literal '</rpc>'. Trusted: "
+                      "boundary inside the message-id attribute makes the reply unfileable); reply payloads do not contain the literal '</rpc>'; a buffer never holds two server messages at once (otherwise: known finding F26 -- the echo of a request and "
+                      "its reply MAY share a read, generated since mutation round 3). Trusted: "
                       "kernel, generated regex ASTs + RX, extraction, harness server model.",
-        "assumptions": ["one read never carries bytes of two server messages", "reply payloads do not contain the literal </rpc>"],
+        "assumptions": ["the model's read loop re-examines its buffer to a fixpoint between two chunk arrivals (the real loop does one examination per read delay); "
+                        "the two differ only when a buffer holds more than one server message, which is the known finding F26"],
     },
     "C09": {
         "n": {"quick": 200, "thorough": 5000},
